@@ -2,13 +2,14 @@
 // C12 - concurrent unordered / ordered associative containers never lose or duplicate keys.
 // -p kind=umap|uset|ummap|umset|omap|oset|ommap|omset|cmap (cmap = the real tbb::concurrent_map with its own generator)
 // -p hash=id|const  -p pre=N (keys 100..100+N-1)  -p prekeys="3,5"  -p lv=0120 (skip-list levels, one digit per created node)
-// -p prog="I7|I7|T"  ops: I<k> insert  M<k> emplace  F<k> find  C<k> count  N<k> contains  T full traversal
+// -p prog="I7|I7|T"  ops: I<k> insert  M<k> emplace  F<k> find  C<k> count  N<k> contains  T full traversal  S traversal through a split range()
 #include <oneapi/tbb/concurrent_unordered_map.h>
 #include <oneapi/tbb/concurrent_unordered_set.h>
 #include <oneapi/tbb/concurrent_map.h>
 #include <oneapi/tbb/concurrent_set.h>
 #include "vfh.h"
 #include <set>
+#include <list>
 #include <map>
 using namespace vfh;
 static int g_hash = 0; static std::string g_lv = "1"; static size_t g_lvpos = 0;
@@ -79,6 +80,12 @@ template <class C, bool MULTI, bool ORDERED> void run() {
             case 'F': { id = log.begin(K_FIND, k); auto it = c.find(k); bool f = it != c.end(); if (f && keyof(it, ismap()) != k) vf_fail("find(%d) returned an element with key %d", k, keyof(it, ismap())); log.end(id, f); } break;
             case 'N': id = log.begin(K_FIND, k); log.end(id, c.contains(k)); break;
             case 'C': id = log.begin(K_COUNT, k); log.end(id, (long)c.count(k)); break;
+            case 'S': { Trav tr; tr.thread = vf_self(); tr.t0 = vf_stamp(); auto r = c.range(); typedef decltype(r) RT;   /* traversal through range(): split in two rounds where divisible, then the pieces are walked one after the other with scheduling points in between */
+                std::list<RT> pieces; pieces.push_back(r);
+                for (int round = 0; round < 2; round++) { for (auto pi = pieces.begin(); pi != pieces.end(); ++pi) if (pi->is_divisible()) { auto nx = std::next(pi); pi = pieces.emplace(nx, *pi, tbb::split()); } vf_point(); }
+                auto b0 = pieces.front().begin(); auto e0 = pieces.front().end(); vf_point();   /* the first piece fixes its bounds before the others look at theirs */
+                bool first = true; for (auto& pc : pieces) { auto bb = first ? b0 : pc.begin(); auto ee = first ? e0 : pc.end(); first = false; size_t guard = 0; for (auto it = bb; it != ee; ++it) { tr.keys.push_back(keyof(it, ismap())); if (++guard > 200) vf_fail("a piece of a split range() does not end"); } vf_point(); }
+                tr.t1 = vf_stamp(); travs.push_back(tr); } break;
             case 'T': { Trav tr; tr.thread = vf_self(); tr.t0 = vf_stamp(); for (auto it = c.begin(); it != c.end(); ++it) tr.keys.push_back(keyof(it, ismap())); tr.t1 = vf_stamp(); travs.push_back(tr); } break;
             default: vf_fail("bad op"); } } });
     open_window_and_join(ids);
